@@ -204,6 +204,16 @@ def _reg_atomgrid():
         return _gauss(p, g.center) * (1 + 0.3 * (p[:, 2] - g.center[2]))
     op("AtomGrid.integrate_angular_coordinates", "GA", lambda: (lambda g: [g, fvals(g)])(_atgrid()),
        lambda v, cb: [v[0].integrate_angular_coordinates(v[1])])
+    def atgrid0():
+        from grid.basegrid import OneDGrid
+        rg0 = OneDGrid(np.array([0.0, 0.4, 1.1, 2.0]), np.array([0.1, 0.3, 0.5, 0.7]), (0, np.inf))   # a node AT the nucleus
+        return AtomGrid(rg0, degrees=[5], center=np.array([0.1, -0.2, 0.3]))
+    op("AtomGrid.integrate_angular_coordinates[r=0 node]", "GA", lambda: (lambda g: [g, fvals(g)])(atgrid0()),
+       lambda v, cb: [v[0].integrate_angular_coordinates(v[1])])
+    op("AtomGrid.integrate_angular_coordinates[r=0 node, stacked]", "GA", lambda: (lambda g: [g, np.vstack([fvals(g), 2 * fvals(g) + 1])])(atgrid0()),
+       lambda v, cb: [v[0].integrate_angular_coordinates(v[1])])
+    op("AtomGrid.spherical_average+interpolate[r=0 node]", "GAA", lambda: (lambda g: [g, fvals(g), _pts(4, 9) * 0.5])(atgrid0()),
+       lambda v, cb: [v[0].spherical_average(v[1])(np.array([0.1, 0.5, 1.0])), v[0].interpolate(v[1])(v[2])])
     op("AtomGrid.spherical_average", "GA", lambda: (lambda g: [g, fvals(g)])(_atgrid()),
        lambda v, cb: [v[0].spherical_average(v[1])(np.array([0.1, 0.5, 1.0]))])
     op("AtomGrid.radial_component_splines", "GA", lambda: (lambda g: [g, fvals(g)])(_atgrid()),
